@@ -138,6 +138,10 @@ def evaluator_cells(name):
     kinds_y += [('existential', ('Q', 'Existential', x, ('P', G, (x,)))), ('universal', ('Q', 'Universal', x, ('P', G, (x,))))]
     kinds_x += [('possibility', A.op('Possibility', A.atom(0))), ('necessity', A.op('Necessity', A.atom(0)))]
     kinds_y += [('possibility', A.op('Possibility', A.atom(1))), ('necessity', A.op('Necessity', A.atom(1)))]
+    # letters and predications the model never hears about: they take the logic's default value, which must behave as
+    # that value in every table (e.g. a default inherited from another logic's value class compares unequal to its namesake)
+    kinds_x += [('unassigned letter', A.atom(2)), ('unassigned predication', ('P', (2, 0, 1), (a,)))]
+    kinds_y += [('unassigned letter', A.atom(3)), ('unassigned predication', ('P', (2, 1, 1), (a,)))]
     kw = dict(world=0) if modal else {}
     for v1 in V:
         for v2 in V:
